@@ -2734,6 +2734,27 @@ def tables_c04(run):
     okd = any(nmq.poly(e) == nmq.poly(parse_expr('0.5 * Quaternion.Pure(real.t) * UnitQuaternion(real.R)')) for e in vals.get('dual', []))
     (run.holds if okr else run.violation)(rule, g.key, 'real part', 'real = UnitQuaternion(T.R)' if okr else 'real part is not UnitQuaternion(T.R)', f=g)
     (run.holds if okd else run.violation)(rule, g.key, 'dual part', 'dual = 0.5 * Pure(T.t) * real' if okd else 'dual part is not 0.5 * Pure(T.t) * real (operand order matters)', f=g)
+    check_pair_integrity(run, rule=rule)
+    # SE2 -> SE3 lift table
+    g = run.prog.func('pose2d:SE2.SE3.<locals>.lift3')
+    gi = FuncInfo.of(g)
+    tbl = {}
+    alloc = None
+    for st in own_walk(g.node):
+        if isinstance(st, ast.Assign):
+            t = st.targets[0]
+            if isinstance(t, ast.Name):
+                alloc = canon(gi, st.value, inline=False)
+            elif isinstance(t, ast.Subscript):
+                tbl[Normaliser().slice_str(t.slice)] = ast.unparse(canon(gi, st.value, inline=False))
+    want = {':2, :2': 'x.A[:2, :2]', ':2, 3': 'x.A[:2, 2]', '2, 3': 'z'}
+    ok = alloc is not None and matches('eye(4)', alloc) is not None and tbl == want
+    (run.holds if ok else run.violation)(rule, g.key, 'lift table', 'y = eye(4); rotation block, translation column, z' if ok else 'SE2 -> SE3 lift writes %s, expected %s on eye(4)' % (tbl, want), f=g)
+
+
+
+def check_pair_integrity(run, rule='R13'):
+    """The (real, dual) pair given by the caller of a dual-quaternion constructor is stored as given."""
     # the (real, dual) pair given by the caller is stored as given: (r, d) and (-r, -d) are the same motion but (-r, d) is not,
     # so a constructor that rewrites one member of the pair changes the motion
     from ..cfg import reaching_defs
@@ -2762,21 +2783,6 @@ def tables_c04(run):
                 run.holds(rule, key, 'pair integrity: self.%s' % t.attr, 'stored exactly as supplied', f=g, node=a)
         if npair < 2:
             run.error('R13: %s: the two-argument branch storing (real, dual) was not recognised' % key)
-    # SE2 -> SE3 lift table
-    g = run.prog.func('pose2d:SE2.SE3.<locals>.lift3')
-    gi = FuncInfo.of(g)
-    tbl = {}
-    alloc = None
-    for st in own_walk(g.node):
-        if isinstance(st, ast.Assign):
-            t = st.targets[0]
-            if isinstance(t, ast.Name):
-                alloc = canon(gi, st.value, inline=False)
-            elif isinstance(t, ast.Subscript):
-                tbl[Normaliser().slice_str(t.slice)] = ast.unparse(canon(gi, st.value, inline=False))
-    want = {':2, :2': 'x.A[:2, :2]', ':2, 3': 'x.A[:2, 2]', '2, 3': 'z'}
-    ok = alloc is not None and matches('eye(4)', alloc) is not None and tbl == want
-    (run.holds if ok else run.violation)(rule, g.key, 'lift table', 'y = eye(4); rotation block, translation column, z' if ok else 'SE2 -> SE3 lift writes %s, expected %s on eye(4)' % (tbl, want), f=g)
 
 
 # =========================================================================== information dependence (logarithm branches)
